@@ -6,9 +6,11 @@ From Synnax Require Import Common.Base Generated.Consts_C15 Core.Channel Core.Di
 Local Open Scope N_scope.
 Notation length := List.length.
 
-(* The model instance that corresponds to /repo's working tree: both response synchronizers forward
-   the accumulated response, the iterator's acknowledgements are OR-ed (tree after fix F15). *)
-Definition tree_fixed : bool := false.
+(* The model instance that corresponds to /repo's working tree: the iterator synchronizer ORs the
+   acknowledgements and forwards the accumulated response (tree after fix F15); the writer
+   synchronizer is unchanged: it still forwards the last response it received. *)
+Definition tree_fixed : bool := true.
+Definition tree_wsync_fixed : bool := false.
 
 (* ---- observations *)
 (* answer to one traversal command: acknowledgement and, per key (ascending, empty ones left out),
@@ -119,7 +121,7 @@ Definition iter_mismatch (c : ccase) (ic : iter_case) : bool :=
 
 Definition mismatch (c : case_t) : bool :=
   match c with
-  | CSyncW n rs outs => negb (list_eqb (opt_eqb wresp_eqb) (wsync_run tree_fixed n wsync0 rs) outs)
+  | CSyncW n rs outs => negb (list_eqb (opt_eqb wresp_eqb) (wsync_run tree_wsync_fixed n wsync0 rs) outs)
   | CSyncI n rs outs => negb (list_eqb (opt_eqb iresp_eqb) (isync_run tree_fixed n isync0 rs) outs)
   | CCluster cc =>
       script_mismatch (cluster0 cc) (cc_script cc) || stores_mismatch cc || existsb (iter_mismatch cc) (cc_iters cc)
@@ -188,7 +190,7 @@ Definition why (c : case_t) :=
   end.
 Definition model_dump (c : case_t) :=
   match c with
-  | CSyncW n rs _ => (why c, inl (wsync_run tree_fixed n wsync0 rs))
+  | CSyncW n rs _ => (why c, inl (wsync_run tree_wsync_fixed n wsync0 rs))
   | CSyncI n rs _ => (why c, inr (inl (isync_run tree_fixed n isync0 rs)))
   | CCluster cc =>
       let cl := drun (cluster0 cc) (ops_of cc) in
